@@ -571,7 +571,7 @@ class Provider(ABC):                    # pylint: disable=too-many-public-method
         # target is same as folder, or target is a subpath (ensuring separator is there for base)
         if folder_full_case == target_full_case:
             return False if strict else self.sep
-        if folder_full_case == self.sep and target_full_case[0] == self.sep:
+        if folder_full_case == self.sep and target_full_case.startswith(self.sep):
             return target_full
         elif len(target_full) > len(folder_full) and target_full[len(folder_full)] == self.sep:
             if target_full_case.startswith(folder_full_case):
